@@ -349,6 +349,8 @@ func wfRangeReq(o *ObjectRangeRequest) bool {
 // dots; 3..63 characters overall; not an IPv4 address.
 
 //@ pred specIPv4(s) = inre(s, "^(0|[1-9][0-9]?|1[0-9][0-9]|2[0-4][0-9]|25[0-5])\\.(0|[1-9][0-9]?|1[0-9][0-9]|2[0-4][0-9]|25[0-5])\\.(0|[1-9][0-9]?|1[0-9][0-9]|2[0-4][0-9]|25[0-5])\\.(0|[1-9][0-9]?|1[0-9][0-9]|2[0-4][0-9]|25[0-5])$")
+//@ pred specBucketNameAbs(s) = 3 <= len(s) && len(s) <= 63 && specBucketNameBody(s)
+//@ pred specBucketNameBody(s) = inre(s, "^[a-z0-9][a-z0-9-]+[a-z0-9](\\.[a-z0-9][a-z0-9-]+[a-z0-9])*$") && !specIPv4(s)
 //@ pred specBucketName(s) = 3 <= len(s) && len(s) <= 63 &&
 //@     inre(s, "^[a-z0-9][a-z0-9-]+[a-z0-9](\\.[a-z0-9][a-z0-9-]+[a-z0-9])*$") && !specIPv4(s)
 
@@ -365,4 +367,285 @@ func wfRangeReq(o *ObjectRangeRequest) bool {
 //@ loop 1 invariant  seen:   all(i, 0, rangeindex + 1, inre(labels[i], "^[a-z0-9]([a-z0-9\\.-]+)[a-z0-9]$"))
 //@ ensures [C17]     exact:  iff(ret0 == nil, specBucketName(name))
 //@ ensures [C17]     code:   imp(ret0 != nil, errcode(ret0) == ErrInvalidBucketName)
+//@ modifies nothing
+
+// ---- HTTP surface (C09, C02, C08, C12, C16, C17) -----------------------------------
+// gInv: what New() establishes. rqInv: what net/http guarantees for a request it
+// hands to a handler (non-nil URL and Body; every header it stores has at least one value).
+
+// The configuration of a GoFakeS3 is written by New and by the option closures
+// New applies; no handler assigns these fields (checked over every function of
+// the repository), so they are constants while requests are served.
+//@ immutable GoFakeS3 storage versioned uploader log timeSource timeSkew metadataSizeLimit integrityCheck failOnUnimplementedPage hostBucket hostBucketBases autoBucket wrapCORS init New WithTimeSource WithTimeSkewLimit WithMetadataSizeLimit WithIntegrityCheck WithLogger WithGlobalLog WithHostBucket WithHostBucketBase WithoutVersioning WithUnimplementedPageError WithAutoBucket WithInsecureCORS
+
+//@ pred gInv(g) = g != nil && g.storage != nil && g.log != nil && g.uploader != nil && g.timeSource != nil
+//@ pred rqInv(r) = r != nil && r.URL != nil && r.Body != nil &&
+//@     allstr(k, imp(has(r.Header, k), len(r.Header[k]) >= 1))
+
+//@ iface gofakes3.Logger.Print
+
+//@ iface gofakes3.Backend.BucketExists
+//@ iface gofakes3.Backend.ListBuckets
+//@ iface gofakes3.Backend.ListBucket
+//@ requires           prefix: prefix != nil
+//@ ensures            res:    imp(ret1 == nil, ret0 != nil && all(i, 0, len(ret0.Contents), ret0.Contents[i] != nil))
+//@ iface gofakes3.Backend.HeadObject
+//@ ensures            res:    imp(ret1 == nil, ret0 != nil && ret0.Contents != nil)
+//@ iface gofakes3.Backend.GetObject
+//@ requires [C11]     wf:     wfRangeReq(rangeRequest)
+//@ ensures            res:    imp(ret1 == nil && ret0 != nil, ret0.Contents != nil && ret0.Size >= 0)
+//@ ensures [C11]      range:  imp(ret1 == nil && ret0 != nil && ret0.Range != nil, 0 <= ret0.Range.Start && 1 <= ret0.Range.Length &&
+//@                              ret0.Range.Start + ret0.Range.Length <= ret0.Size)
+//@ iface gofakes3.Backend.CreateBucket
+//@ modifies store_gen
+//@ ensures [C08]      reject: imp(ret0 != nil, store_gen == old(store_gen))
+//@ iface gofakes3.Backend.DeleteBucket
+//@ modifies store_gen
+//@ ensures [C08]      reject: imp(ret0 != nil, store_gen == old(store_gen))
+//@ iface gofakes3.forceDeleter.ForceDeleteBucket
+//@ modifies store_gen
+//@ iface gofakes3.Backend.DeleteObject
+//@ modifies store_gen
+//@ iface gofakes3.Backend.DeleteMulti
+//@ modifies store_gen
+//@ iface gofakes3.Backend.CopyObject
+//@ modifies store_gen
+//@ ensures [C08]      reject: imp(ret1 != nil, store_gen == old(store_gen))
+//@ iface gofakes3.VersionedBackend.VersioningConfiguration
+//@ iface gofakes3.VersionedBackend.SetVersioningConfiguration
+//@ modifies store_gen
+//@ iface gofakes3.VersionedBackend.GetObjectVersion
+//@ requires [C11]     wf:     wfRangeReq(rangeRequest)
+//@ ensures            res:    imp(ret1 == nil && ret0 != nil, ret0.Contents != nil && ret0.Size >= 0)
+//@ iface gofakes3.VersionedBackend.HeadObjectVersion
+//@ ensures            res:    imp(ret1 == nil && ret0 != nil, ret0.Contents != nil)
+//@ iface gofakes3.VersionedBackend.DeleteObjectVersion
+//@ modifies store_gen
+//@ iface gofakes3.VersionedBackend.DeleteMultiVersions
+//@ modifies store_gen
+//@ iface gofakes3.VersionedBackend.ListBucketVersions
+//@ requires           args:   prefix != nil && page != nil
+//@ ensures            res:    imp(ret1 == nil, ret0 != nil && all(i, 0, len(ret0.Versions), ret0.Versions[i] != nil))
+//@ iface gofakes3.VersionItem.GetVersionID
+//@ iface gofakes3.VersionItem.setVersionID
+//@ iface gofakes3.errorResponse.enrich
+//@ modifies fieldof(ErrorResponse, RequestID), fieldof(resourceErrorResponse, ErrorResponse.RequestID), fieldof(requestTimeTooSkewedResponse, ErrorResponse.RequestID), fieldof(ErrorInvalidArgumentResponse, ErrorResponse.RequestID)
+//@ iface gofakes3.MultipartBackend.CreateMultipartUpload
+//@ iface gofakes3.MultipartBackend.UploadPart
+//@ requires [C06,C14] pn:     partNumber >= 1
+//@ requires           input:  input != nil
+//@ iface gofakes3.MultipartBackend.ListMultipartUploads
+//@ requires           limit:  limit >= 1
+//@ iface gofakes3.MultipartBackend.ListParts
+//@ requires [C14]     args:   marker >= 0 && limit >= 0
+//@ iface gofakes3.MultipartBackend.AbortMultipartUpload
+//@ iface gofakes3.MultipartBackend.CompleteMultipartUpload
+//@ requires           in:     input != nil
+//@ modifies store_gen
+
+//@ func (ErrorCode).Status
+//@ props C09 C02 C11
+//@ ensures [C09]      class:  300 <= ret0 && ret0 <= 599
+//@ ensures [C02]      s404:   imp(e == ErrNoSuchBucket || e == ErrNoSuchKey || e == ErrNoSuchUpload || e == ErrNoSuchVersion, ret0 == 404)
+//@ ensures [C02]      s409:   imp(e == ErrBucketAlreadyExists || e == ErrBucketNotEmpty, ret0 == 409)
+//@ ensures [C11]      s416:   imp(e == ErrInvalidRange, ret0 == 416)
+//@ ensures [C09]      s400:   imp(e == ErrInvalidBucketName || e == ErrBadDigest || e == ErrInvalidDigest || e == ErrIncompleteBody ||
+//@                              e == ErrKeyTooLong || e == ErrMetadataTooLarge || e == ErrInvalidPart || e == ErrInvalidPartOrder ||
+//@                              e == ErrMalformedXML || e == ErrInvalidArgument, ret0 == 400)
+//@ ensures [C09]      s411:   imp(e == ErrMissingContentLength, ret0 == 411)
+//@ ensures [C09]      s501:   imp(e == ErrNotImplemented, ret0 == 501)
+//@ ensures [C09]      s500:   imp(e == ErrInternal, ret0 == 500)
+//@ modifies nothing
+
+//@ func ensureErrorResponse
+//@ props C09
+//@ ensures [C09]      some:   ret0 != nil
+//@ modifies fieldof(ErrorResponse, RequestID), fieldof(resourceErrorResponse, ErrorResponse.RequestID), fieldof(requestTimeTooSkewedResponse, ErrorResponse.RequestID), fieldof(ErrorInvalidArgumentResponse, ErrorResponse.RequestID)
+
+//@ func (*GoFakeS3).httpError
+//@ props C09
+//@ requires           inv:    gInv(g) && w != nil && r != nil
+
+//@ func (*GoFakeS3).xmlEncoder
+//@ props C09
+//@ requires           w:      w != nil
+//@ ensures            nn:     ret0 != nil
+//@ modifies resp_writes(w)
+
+//@ func (*GoFakeS3).xmlDecodeBody
+//@ props C09
+//@ requires           rdr:    rdr != nil
+//@ modifies heap
+
+//@ func (*GoFakeS3).ensureBucketExists
+//@ props C02 C09 C08
+//@ requires           inv:    gInv(g)
+//@ ensures [C02]      code:   imp(ret0 != nil && typeis(ret0, *resourceErrorResponse), errcode(ret0) == ErrNoSuchBucket)
+//@ ensures [C08]      quiet:  imp(!g.autoBucket, store_gen == old(store_gen))
+//@ modifies store_gen
+
+//@ func versionFromQuery
+//@ props C05 C09
+//@ ensures [C05]      null:   imp(len(qv) > 0 && qv[0] == "null", ret0 == "")
+//@ ensures [C05]      pass:   imp(len(qv) > 0 && qv[0] != "null", ret0 == qv[0])
+//@ ensures [C05]      none:   imp(len(qv) == 0, ret0 == "")
+//@ modifies nothing
+
+//@ func metadataSize
+//@ props C08 C09
+//@ unproved range:total* the sum of header name and value lengths is bounded by net/http's limit on header bytes (not modelled)
+//@ modifies nothing
+
+//@ func formatHeaderTime
+//@ props C09
+//@ pure
+
+//@ func metadataHeaders
+//@ props C08 C01 C09
+//@ requires           vals:   allstr(k, imp(has(headers, k), len(headers[k]) >= 1))
+//@ loop 1 invariant   fresh:  meta != nil && fresh(meta) && allstr(k, imp(visited(k), has(headers, k)))
+//@ loop 1 invariant   keep:   allstr(k, imp(visited(k) && (k == "Content-Type" || k == "Content-Disposition" || k == "Content-Encoding" || strings.HasPrefix(k, "X-Amz-")),
+//@                              has(meta, k) && meta[k] == headers[k][0]))
+//@ loop 1 invariant   only:   allstr(k, imp(has(meta, k), has(headers, k) && (k == "Content-Type" || k == "Content-Disposition" || k == "Content-Encoding" || strings.HasPrefix(k, "X-Amz-"))))
+//@ ensures [C08]      large:  imp(ret1 != nil, errcode(ret1) == ErrMetadataTooLarge)
+//@ ensures [C01]      map:    ret0 != nil
+//@ ensures [C01]      keep:   allstr(k, imp(has(headers, k) && k != "Last-Modified" && (k == "Content-Type" || k == "Content-Disposition" || k == "Content-Encoding" || strings.HasPrefix(k, "X-Amz-")),
+//@                              has(ret0, k) && ret0[k] == headers[k][0]))
+//@ ensures [C01]      only:   allstr(k, imp(has(ret0, k), k == "Last-Modified" || (has(headers, k) && (k == "Content-Type" || k == "Content-Disposition" || k == "Content-Encoding" || strings.HasPrefix(k, "X-Amz-")))))
+//@ ensures            fresh:  fresh(ret0)
+//@ modifies nothing
+
+//@ func (*GoFakeS3).nextRequestID
+//@ props C09
+//@ requires           g:      g != nil
+//@ modifies g.requestID
+
+//@ func (*GoFakeS3).routeBase
+//@ props C09 C16
+//@ requires           inv:    gInv(g) && w != nil && rqInv(r)
+
+//@ func (*GoFakeS3).routeObject
+//@ props C09
+//@ requires           inv:    gInv(g) && w != nil && rqInv(r)
+//@ func (*GoFakeS3).routeBucket
+//@ props C09
+//@ requires           inv:    gInv(g) && w != nil && rqInv(r)
+//@ func (*GoFakeS3).routeMultipartUploadBase
+//@ props C09
+//@ requires           inv:    gInv(g) && w != nil && rqInv(r)
+//@ func (*GoFakeS3).routeVersioning
+//@ props C09
+//@ requires           inv:    gInv(g) && w != nil && rqInv(r)
+//@ func (*GoFakeS3).routeVersions
+//@ props C09
+//@ requires           inv:    gInv(g) && w != nil && rqInv(r)
+//@ func (*GoFakeS3).routeVersion
+//@ props C09 C05
+//@ requires           inv:    gInv(g) && w != nil && rqInv(r)
+//@ func (*GoFakeS3).routeMultipartUpload
+//@ props C09
+//@ requires           inv:    gInv(g) && w != nil && rqInv(r)
+
+//@ func (*GoFakeS3).listBuckets
+//@ props C09
+//@ requires           inv:    gInv(g) && w != nil && rqInv(r)
+//@ func (*GoFakeS3).listBucket
+//@ props C09 C04
+//@ requires           inv:    gInv(g) && w != nil && rqInv(r)
+//@ func (*GoFakeS3).getBucketLocation
+//@ props C09
+//@ requires           inv:    gInv(g) && w != nil && rqInv(r)
+//@ func (*GoFakeS3).listBucketVersions
+//@ props C09 C13
+//@ requires           inv:    gInv(g) && w != nil && rqInv(r)
+//@ func (*GoFakeS3).createBucket
+//@ props C09 C17
+//@ requires           inv:    gInv(g) && w != nil && rqInv(r)
+//@ ensures [C17]      refuse: imp(!specBucketNameAbs(bucket), ret0 != nil && errcode(ret0) == ErrInvalidBucketName && store_gen == old(store_gen))
+//@ func (*GoFakeS3).deleteBucket
+//@ props C09 C02
+//@ requires           inv:    gInv(g) && w != nil && rqInv(r)
+//@ func (*GoFakeS3).headBucket
+//@ props C09 C02
+//@ requires           inv:    gInv(g) && w != nil && rqInv(r)
+//@ func (*GoFakeS3).getObject
+//@ props C09 C11 C05
+//@ requires           inv:    gInv(g) && w != nil && rqInv(r)
+//@ func (*GoFakeS3).getObject$1
+//@ props C09
+//@ requires           inv:    Contents != nil && g != nil && *g != nil && (*g).log != nil
+//@ func (*GoFakeS3).writeGetOrHeadObjectResponse
+//@ props C09 C01
+//@ requires           inv:    gInv(g) && w != nil && rqInv(r) && obj != nil
+//@ modifies nothing
+//@ func (*GoFakeS3).headObject
+//@ props C09 C05
+//@ requires           inv:    gInv(g) && w != nil && rqInv(r)
+//@ func (*GoFakeS3).createObjectBrowserUpload
+//@ props C09 C08
+//@ requires           inv:    gInv(g) && w != nil && rqInv(r)
+//@ func (*GoFakeS3).createObject
+//@ props C09 C08 C12
+//@ requires           inv:    gInv(g) && w != nil && rqInv(r)
+//@ ensures [C08]      reject: imp(err != nil && !g.autoBucket, store_gen == old(store_gen))
+//@ func (*GoFakeS3).copyObject
+//@ props C09 C08
+//@ requires           inv:    gInv(g) && w != nil && rqInv(r) && meta != nil
+//@ ensures [C08]      reject: imp(err != nil && !g.autoBucket, store_gen == old(store_gen))
+//@ func (*GoFakeS3).deleteObject
+//@ props C09 C02
+//@ requires           inv:    gInv(g) && w != nil && rqInv(r)
+//@ func (*GoFakeS3).deleteObjectVersion
+//@ props C09 C05
+//@ requires           inv:    gInv(g) && w != nil && rqInv(r)
+//@ func (*GoFakeS3).deleteMulti
+//@ props C09 C02
+//@ requires           inv:    gInv(g) && w != nil && rqInv(r)
+//@ func (*GoFakeS3).initiateMultipartUpload
+//@ props C09 C06
+//@ requires           inv:    gInv(g) && w != nil && rqInv(r)
+//@ func (*GoFakeS3).putMultipartUploadPart
+//@ props C09 C06 C08
+//@ requires           inv:    gInv(g) && w != nil && rqInv(r)
+//@ func (*GoFakeS3).abortMultipartUpload
+//@ props C09 C06
+//@ requires           inv:    gInv(g) && w != nil && rqInv(r)
+//@ func (*GoFakeS3).completeMultipartUpload
+//@ props C09 C06
+//@ requires           inv:    gInv(g) && w != nil && rqInv(r)
+//@ func (*GoFakeS3).listMultipartUploads
+//@ props C09 C14
+//@ requires           inv:    gInv(g) && w != nil && rqInv(r)
+//@ func (*GoFakeS3).listMultipartUploadParts
+//@ props C09 C14
+//@ requires           inv:    gInv(g) && w != nil && rqInv(r)
+//@ func (*GoFakeS3).getBucketVersioning
+//@ props C09
+//@ requires           inv:    gInv(g) && w != nil && rqInv(r)
+//@ func (*GoFakeS3).putBucketVersioning
+//@ props C09 C05
+//@ requires           inv:    gInv(g) && w != nil && rqInv(r)
+
+//@ func prefixFromQuery
+//@ props C09 C03
+//@ ensures [C03]      has:    ret0.HasPrefix == (ret0.Prefix != "") || !ret0.HasPrefix
+//@ modifies nothing
+//@ func listBucketPageFromQuery
+//@ props C09 C04
+//@ ensures [C04]      keys:   imp(rerr == nil, 0 <= page.MaxKeys && page.MaxKeys <= MaxBucketKeys)
+//@ ensures [C04]      err:    imp(rerr != nil, errcode(rerr) == ErrInvalidArgument || errcode(rerr) == ErrInvalidToken)
+//@ modifies nothing
+//@ func listBucketVersionsPageFromQuery
+//@ props C09 C13
+//@ ensures [C13]      keys:   imp(rerr == nil, 0 <= page.MaxKeys && page.MaxKeys <= MaxBucketVersionKeys)
+//@ modifies nothing
+//@ func uploadListMarkerFromQuery
+//@ props C09 C14
+//@ ensures [C14]      none:   imp(ret0 != nil, ret0.Object != "")
+//@ modifies nothing
+
+//@ func (*ObjectRange).writeHeader
+//@ props C11 C09
+//@ requires           w:      w != nil
+//@ requires [C11]     inside: imp(o != nil, 0 <= o.Start && 1 <= o.Length && o.Start + o.Length <= sz)
 //@ modifies nothing
